@@ -11,4 +11,9 @@ META = {
         text="Exploration: generated valid claim pairs of all 6 claim types differing in one execution-relevant field, in how adjacent free-form fields are split, or in list order must hash differently; a quarter of the pairs are also voted on the real crosschain keeper (A,B,B) where nothing may be observed before two oracles agree and the applied claim must equal B field for field.",
         note="ValidateBasic defines the domain of valid claims; chain_name and bridger_address are per-voter and excluded.",
     ),
+    "C20": dict(
+        technique="property-based testing (rapid) with a protobuf wire-level mutator over reflection-filled and valid-by-construction messages (crash oracle), generated precompile call data through real EVM txs, and a specification oracle for the fee-bypass rule over generated node configurations; native go-fuzz targets in the thorough tier",
+        text="Exploration: (A) tens of thousands of byte-level inputs per run reach TxDecoder, every registered message type's ValidateBasic and signer extraction, the ante handler, claim/confirm decoding, all 20 precompile methods and the target/address parsers; any panic (also one recovered as ErrPanic) is a violation. (B) thousands of CheckTx-mode ante executions on apps built with generated exempt-type lists and allowances are compared with an independent statement of the bypass rule at the +-1 boundaries of gas allowance and required fee.",
+        note="MsgClaim cannot pass ValidateBasic after wire decoding on this snapshot (no UnpackInterfaces), so claims are additionally fed as Any bytes. The ante handler is invoked directly in CheckTx mode (baseapp's decode / validate-basic order is reproduced by the harness).",
+    ),
 }
